@@ -160,7 +160,9 @@ In(l, r, log) ==             \* 11.8.7: the right operand is checked before the 
 InstanceOf(l, r, log) ==     \* 11.8.6, 15.3.5.3 for the built-in constructors Object and Function
     IF ~IsObjLike(r) THEN T("TypeError", log)
     ELSE IF r.t # "fn" THEN T("TypeError", log)
-    ELSE IF ~IsObjLike(l) THEN R(BoolV(FALSE), log)
+    ELSE IF ~IsObjLike(l) THEN R(BoolV(FALSE), log)                 \* 15.3.5.3 step 1 comes before the prototype is read
+    ELSE IF r.name \in {"FNP", "FBP"} THEN T("TypeError", log)      \* step 3: a function whose prototype property is a
+                                                                   \* primitive (FNP), also through a bound function (FBP)
     ELSE R(BoolV(r.name = "Object" \/ (r.name = "Function" /\ l.t = "fn")), log)
 
 (* a binary operator applied to evaluated operands *)
